@@ -19,16 +19,26 @@ def regen_leaves():
     leaves.generate()
 
 
+def _t3(v):
+    """'t:r,g,b' for a 3-sequence of ints, otherwise an encoding that matches nothing the model prints"""
+    try:
+        if len(v) == 3 and all(type(x) is int for x in v):
+            return "t:%d,%d,%d" % tuple(v)
+    except TypeError:
+        pass
+    return "x:" + repr(v)
+
+
 def enc_out(out):
-    if isinstance(out, tuple):
-        return "t:%d,%d,%d" % out
+    if isinstance(out, (tuple, list)):
+        return _t3(out)
     m = fw.HSL_RE.match(out) if isinstance(out, str) else None
     if m and out.startswith("hsl("):
         try:
             return "h:" + ",".join(fbits(float(x)) for x in m.groups())
         except ValueError:
             return "s:" + out.encode().hex()
-    return "s:" + out.encode().hex()
+    return "s:" + out.encode().hex() if isinstance(out, str) else "x:" + repr(out)
 
 
 def same_out(a, b):
